@@ -12,13 +12,16 @@ use serde_json::json;
 use simfony::simplicity::jet::Elements;
 
 pub fn dump_jets() {
-    println!("# frozen snapshot of the pinned release's jet signature table: name|param types (&-separated)|result type");
+    println!("# frozen snapshot of the pinned release's jet signature table: name|param types (&-separated)|result type|param types as documented (with builtin aliases)|result type as documented");
     let mut lines = vec![];
     for jet in Elements::ALL {
         let name = jet.to_string();
         let src: Vec<String> = simfony::jet::source_type(jet).iter().map(|t| t.resolve_builtin().expect("builtin").to_string()).collect();
         let dst = simfony::jet::target_type(jet).resolve_builtin().expect("builtin").to_string();
-        lines.push(format!("{}|{}|{}", name, src.join("&"), dst));
+        // the documented (aliased) spelling of the same signature
+        let src_a: Vec<String> = simfony::jet::source_type(jet).iter().map(|t| t.to_string()).collect();
+        let dst_a = simfony::jet::target_type(jet).to_string();
+        lines.push(format!("{}|{}|{}|{}|{}", name, src.join("&"), dst, src_a.join("&"), dst_a));
     }
     lines.sort();
     for l in lines {
@@ -67,6 +70,26 @@ pub fn run(rep: &Report) -> i32 {
             Err(e) => {
                 rep.violation("C13:jet-not-callable", format!("jet::{name} with the documented signature ({} -> {}) not compiled: {e:?}", ptys.iter().map(|t| t.render()).collect::<Vec<_>>().join(", "), ret.render()), replay("accept", "reject", &text));
                 return;
+            }
+        }
+        // the same call with the types spelled as documented (builtin aliases such as Gej, Ctx8, Message64 ...)
+        if let Some((ptys_doc, ret_doc)) = jets::signature_doc(name) {
+            if ptys_doc != ptys || ret_doc != ret {
+                let text_doc = call_program(name, &ptys_doc, &ret_doc);
+                rep.transition(1);
+                rep.eval(1);
+                rep.trace(1);
+                match drive::build(&text_doc, simfony::Arguments::default(), false) {
+                    Ok(b2) => {
+                        rep.class("callable-with-documented-aliases");
+                        if let Ok(b1) = drive::build(&text, simfony::Arguments::default(), false) {
+                            if b1.cmr != b2.cmr {
+                                rep.violation("C13:aliased-signature-differs", format!("jet::{name}: the program written with the documented alias names compiles to a different program than with the aliases written out"), replay("equal-cmr", "different-cmr", &text_doc));
+                            }
+                        }
+                    }
+                    Err(e) => rep.violation("C13:jet-not-callable-with-documented-types", format!("jet::{name} with its documented signature ({} -> {}) not compiled: {e:?}", ptys_doc.iter().map(|t| t.render()).collect::<Vec<_>>().join(", "), ret_doc.render()), replay("accept", "reject", &text_doc)),
+                }
             }
         }
         // near misses of the call
